@@ -581,6 +581,19 @@ fn run(ctx: &mut Ctx) {
         let fields: Vec<(&'static str, M)> = FIELDS.iter().enumerate().filter(|(i, _)| *i != 12).map(|(i, f)| (*f, M::U16(i as u16))).collect();
         let entries: Vec<(M, M)> = (0..40).map(|i| (M::Str(format!("key{i:02}")), M::I64(i))).collect();
         let bytes: Vec<u8> = (0..=255u8).collect();
+        for n in [16usize, 32, 128, 256, 1024, 4096] {
+            judge(ctx, &M::Seq((0..n).map(|i| M::U32(i as u32)).collect()), "wide-containers");
+            judge(ctx, &M::Map((0..n).map(|i| (M::Str(format!("k{i:05}")), M::U64(u64::MAX - i as u64))).collect()), "wide-containers");
+        }
+        let many_fields: Vec<(&'static str, M)> = (0..40).map(|i| (Box::leak(format!("field_{i:02}").into_boxed_str()) as &'static str, M::I16(i as i16))).collect();
+        judge(ctx, &M::Struct("Wide", many_fields[..16].to_vec()), "wide-containers");
+        judge(ctx, &M::Struct("Wide", many_fields[..32].to_vec()), "wide-containers");
+        judge(ctx, &M::StructVariant("E", 70_000, "Wide", many_fields.clone()), "wide-containers");
+        judge(ctx, &M::UnitVariant("E", 300, "beta"), "wide-containers");
+        judge(ctx, &M::Map(vec![(M::Str("k".repeat(300)), M::I8(1)), (M::Str("k".repeat(301)), M::I8(2))]), "wide-containers");
+        judge(ctx, &M::Str("s".repeat(70_000)), "wide-containers");
+        judge(ctx, &M::TupleStruct("T", vec![M::NewtypeVariant("E", 1, "beta", Box::new(M::U64((1 << 53) + 1))), M::NewtypeVariant("E", 1, "beta", Box::new(M::U64((1 << 63) - 1)))]), "wide-containers");
+        judge(ctx, &M::Map(vec![(M::Str("z".into()), M::Some(Box::new(M::F64(-0.0)))), (M::Str("n".into()), M::F64(f64::from_bits(0x7ff8_0000_0000_1234)))]), "wide-containers");
         for m in [
             M::Seq(many.clone()), M::Tuple(many.clone()), M::TupleStruct("Alpha", many.clone()), M::TupleVariant("E", 1, "beta", many.clone()),
             M::Struct("Alpha", fields.clone()), M::StructVariant("E", 2, "δ", fields.clone()), M::Map(entries.clone()),
